@@ -14,6 +14,11 @@ Core Lean only (linked into the driver).  The model follows the code literally:
   floats, so every comparison is exact); a *candidate* may carry `NaN` / `-inf`
   in its stored or evaluated likelihood and `-inf` / `NaN` / `+inf` in its log-prior;
   `+inf` likelihoods are outside the modelled domain (DESIGN.md appendix C);
+* `consume` is one atomic step (`= beginConsume ; finishConsume`, `Proofs/LiveSetInv.consume_eq_begin_finish`):
+  the theorems cover runs whose checkpoints are written at iteration boundaries (`update_state`), where
+  checkpoint + resume is the identity on this state.  A checkpoint written in the middle of
+  `consume_sample` pickles the `beginConsume` state; resuming restarts `consume_sample` from the top on it,
+  which breaks the invariant (`Props/C01.resume_mid_consume_breaks_inv`; known findings F25/C12 and F4/C13);
 * the proposal is an input: the stream of points `proposal.draw` returns, each with
   the value of `proposal.populated` after the draw.
 -/
@@ -184,6 +189,30 @@ def consume (s : St) (cands : List Cand) : Except Err (St × List Cand) :=
                       logLmin := lmin, logLmax := maxL s.logLmax v, iter := s.iter + 1,
                       accepted := s.accepted + 1, rejected := s.rejected + rej,
                       lastCount := count, hist := s.hist ++ [p] }, rest)
+
+/-- The first half of `consume_sample`, up to (not including) the replacement loop: `worst =
+live[0]`, `logLmin`, (evidence increment), `nested_samples.append(worst)`, `iteration += 1`.  The
+live set still contains the worst point.  This is the state a checkpoint written *inside*
+`consume_sample` pickles (`checkpoint_on_training=True`: consume_sample → pool empty → check_state →
+train_proposal → checkpoint; or a signal handler). -/
+def beginConsume (s : St) : Option St :=
+  match s.live with
+  | [] => none
+  | worst :: _ =>
+    some { s with logLmin := some worst.logL, nested := s.nested ++ [worst], iter := s.iter + 1 }
+
+/-- The second half of `consume_sample`: the replacement loop on the state `beginConsume` left. -/
+def finishConsume (m : St) (cands : List Cand) : Except Err (St × List Cand) :=
+  match consumeLoop m.logLmin cands 0 0 with
+  | none => .error .exhausted
+  | some (c, v, count, rej, rest) =>
+    let p := mkPt c v m.iter
+    match insertLive m.live p with
+    | .error e => .error e
+    | .ok (live', i) =>
+      .ok ({ m with live := live', idx := m.idx ++ [i], logLmax := maxL m.logLmax v,
+                    accepted := m.accepted + 1, rejected := m.rejected + rej,
+                    lastCount := count, hist := m.hist ++ [p] }, rest)
 
 /-- what `populate_live_points` stores for one draw: the `yield_sample` filter with
 `logLmin = -inf`, then `isfinite(logP) and isfinite(logL)`. -/
